@@ -23,9 +23,10 @@ ASSUMPTIONS = ["NumPy arithmetic is trusted", "reference model vt/ref/quat.py (H
 MAT_ROUTES = ["Quaternion.to_DCM", "QuaternionArray.to_DCM[N]", "QuaternionArray.to_DCM[1]", "DCM(q=)",
               "DCM.from_quaternion", "DCM.from_quaternion[batch]", "DCM.from_q", "q2R.v1", "q2R.v2",
               "q2R.v1[batch]", "q2R.v2[batch]"]
+OBJ_ROUTES = ["normalize()->routes"]
 PROD_ROUTES = ["Quaternion.product", "Quaternion.__mul__", "Quaternion.__matmul__", "orientation.q_prod"]
 ROT_ROUTES = ["Quaternion.rotate(3,)", "Quaternion.rotate(3,N)", "orientation.q_rot"]
-ROUTES = MAT_ROUTES + PROD_ROUTES + ROT_ROUTES
+ROUTES = MAT_ROUTES + PROD_ROUTES + ROT_ROUTES + OBJ_ROUTES
 REGIONS = {r: 40 for r in gens.UQ_REGIONS + ["antipodal_pair"]}
 PROBES = [("ahrs.common.quaternion", "Quaternion.to_DCM"), ("ahrs.common.quaternion", "QuaternionArray.to_DCM"),
           ("ahrs.common.dcm", "DCM.from_quaternion"), ("ahrs.common.orientation", "q2R"),
@@ -150,4 +151,24 @@ def check(case, ctx):
         if r is not None:
             ctx.le("q_rot(q, v) = R(q)^T v (inverse rotation)", np.linalg.norm(r - Rq.T @ v) / nv, TOL_ROT,
                    {"got": r, "ref": Rq.T @ v}, route="orientation.q_rot")
+    # an object built non-normalised and normalised in place, handed to the routes that read the object as an array
+    r = "normalize()->routes"
+    scale = 0.1 + 7.0 * abs(v[0]) / nv
+
+    def nobj():
+        x = ahrs.Quaternion(q.copy() * scale, versor=False)
+        x.normalize()
+        return x
+    out = call(nobj)
+    if ctx.returned(out, route=r):
+        Qn = out.value
+        from ahrs.common.dcm import DCM
+        vals = call(lambda: (np.array(Qn.to_DCM(), float), np.array(DCM(q=Qn), float), np.array(o.q2R(np.array(Qn)), float), np.array(o.q_rot(Qn, v.copy()), float),
+                             np.array(P.product(Qn), float), np.array(Qn.rotate(v.copy()), float)))
+        if ctx.returned(vals, route=r):
+            M1, M2, M3, rv, pr, rot = vals.value
+            ctx.le("normalised object: every matrix route gives R(q)", max(np.abs(M1 - Rq).max(), np.abs(M2 - Rq).max(), np.abs(M3 - Rq).max()), TOL_R, route=r)
+            ctx.le("normalised object: q_rot(obj, v) = R^T v", np.linalg.norm(rv - Rq.T @ v) / nv, TOL_ROT, route=r)
+            ctx.le("normalised object: p.product(obj) = p q", np.abs(pr - pq).max(), TOL_PROD, {"got": pr, "ref": pq}, route=r)
+            ctx.le("normalised object: rotate(v) = R v", np.linalg.norm(rot - Rq @ v) / nv, TOL_ROT, route=r)
     ctx.le("reference self-check: scalar part of q v q* is 0", abs(qvq[0]) / nv, 1e-14, route="Quaternion.rotate(3,)")
